@@ -326,7 +326,7 @@ class PathEnumerator:
             p.cond = t_and(p.cond, c)
             return [x for x in (p, q) if self.feasible(x.cond)]
         if isinstance(st, ast.If):
-            c = self._resolve_lens(ev.expr(st.test, f), p)
+            c = self._resolve_lens(ev.expr(st.test, f), p, st, fr)
             out: List[Path] = []
             pt = p.fork(c)
             pe = p.fork(t_not(c))
@@ -497,9 +497,21 @@ class PathEnumerator:
             self.ev.model._call_site_counts = cache
         return cache.get(name, 0)
 
-    def _resolve_lens(self, c: Term, p: Path) -> Term:
-        """``len(xs)`` of a local list whose elements are fixed on the path so far (a display extended by appends of displays) is that number"""
+    def _resolve_lens(self, c: Term, p: Path, st: ast.stmt, fr: Frame) -> Term:
+        """``len(xs)`` of a local list whose elements are fixed on the path so far (a display extended by appends of displays) is that number.
+        Not inside a loop that the list was created outside of: there the appends of earlier iterations are not on this body path."""
         lens = subterms(c, lambda x: x[0] == "call" and x[1] == "len" and len(x[2]) == 1 and not x[3] and x[2][0][0] == "var")
+        if not lens:
+            return c
+        fn_node = getattr(fr.fn, "node", None) if fr.fn is not None else None
+        if fn_node is None or self._inline_depth > 0:
+            return c
+        enclosing = [n for n in ast.walk(fn_node) if isinstance(n, (ast.For, ast.While, ast.AsyncFor)) and n.lineno <= st.lineno <= (n.end_lineno or n.lineno)]
+
+        def created_inside_all(var) -> bool:
+            ln = var[2] if isinstance(var[2], int) else None
+            return ln is not None and all(n.lineno <= ln <= (n.end_lineno or n.lineno) for n in enclosing)
+        lens = [t for t in lens if created_inside_all(t[2][0])]
         if not lens:
             return c
         from .listflow import concrete_list
